@@ -170,7 +170,7 @@ func stripOPT(rrs []dns.RR) []dns.RR {
 
 func drawC12(rt *rapid.T, tier string) SrvScenario {
 	o := srvDrawOpts{backends: []string{"cdb", "cdb", "cdb", "cdb", "cdb", "rdb1", "rdb2"}, maxClients: 4, maxQueries: 6, maxOps: 4,
-		faults: []string{"missing", "nokey", "inject"}, cache: true, jumps: true, ecs: true, badvers: true}
+		faults: []string{"missing", "nokey", "inject", "lowio"}, cache: true, jumps: true, ecs: true, badvers: true}
 	if tier == "thorough" {
 		o.backends = []string{"cdb", "cdb", "rdb1", "rdb2"}
 		o.maxQueries = 8
@@ -310,12 +310,7 @@ func runC12(t *testing.T, sc SrvScenario, keep bool) *core.Result {
 			// of the cache). Such a response is excused here, and so is a later cache hit that
 			// serves exactly that response again.
 			if sc.Backend != "cdb" {
-				excuse := false
-				for _, cu := range h.Mon.CatchUps {
-					if q.Inv < cu.End && q.Ret > cu.Start {
-						excuse = true
-					}
-				}
+				excuse := catchUpInside(h, q)
 				if !excuse && q.Counters["DNS_cache.hit"] > 0 {
 					for _, e := range excused {
 						if e.Q.Q == q.Q.Q && e.Ret < q.Ret && diffResponses(q.Resp, e.Resp, false, false) == "" {
